@@ -2249,6 +2249,8 @@ def monitor_c12(t):
             for i, cc, a in calls:
                 if cc == ["be", "all_results"] and isinstance(a, dict) and "ids" in a:
                     visible |= set(a["ids"])
+                if cc[:2] == ["cb", "result"]:
+                    visible.add(cc[2])      # a trial whose results were delivered has reported: stop_all sees it
             left = [tid for tid in visible if getattr(be._trial_dict.get(tid), "status", None) == Status.in_progress]
         if left:
             out.append(F("c12:left-running", f"trials {left} still in progress in the backend after run() returned ({raised})"))
